@@ -104,6 +104,13 @@ CHECKS = {
              "not depend on the previous configuration of the process (2-run histories). What DuckDB stores/rounds/sums under the setting is outside.",
         note="Stubs: os.getenv/os.environ.get return the symbolic values; error-message formatting skipped. Trusted: CrossHair, transcription of the documented ranges.",
         ref="3 C30"),
+    "C21": dict(technique="SMT (z3) over a character-level encoding of the real SQL macros (vtl_period_normalize, vtl_period_to_*) and the real TIME_PERIOD_PATTERN compiled to an automaton; witnesses replayed on real DuckDB / run()",
+        engine="sqlsmt", ref="3 C21", category="model_checking",
+        note="Trusted: vt/sqlsmt/strmac.py string semantics on the modelled alphabet (self-checked against real DuckDB on every run), cal.py, hand transcription of the two documented format tables, z3. "
+             "Part (iv) of the statement (Python TimePeriodHandler vs SQL) is NOT claimed.",
+        text="Partial. Year and period number are symbolic integers (every year 1000-9999, every number valid for the year): (i) each of the 22 documented input layouts and YYYY-MM-DD is accepted by the "
+             "loader's normalise-then-validate pipeline and normalised to the canonical spelling of the same period; (ii) each of the 4 output macros renders each indicator exactly as the documented table "
+             "says, or raises the VTL error where the format cannot express it; (iii) the rendered text read back through the loader yields the same period. 68 obligations, each a single unsat query."),
     "C26": dict(
         technique="ast scan of every raise site + CrossHair symbolic execution of the real exception constructors",
         text="All raise sites of coded VTL exceptions under src/vtlengine are found by an ast scan regenerated on each run (codes resolved by constant "
